@@ -283,11 +283,23 @@ func (in *inliner) boolLocalDef(id *ast.Ident) ast.Expr {
 		return true
 	})
 	safe := true
+	// a test over locals, parameters and constants only cannot be changed by calls
+	localOnly := true
+	ast.Inspect(def, func(m ast.Node) bool {
+		switch m.(type) {
+		case *ast.SelectorExpr, *ast.CallExpr, *ast.IndexExpr, *ast.StarExpr:
+			localOnly = false
+		}
+		return true
+	})
 	// judge(s): a statement that executes completely between the definition and the use
 	judge := func(s ast.Node) {
 		ast.Inspect(s, func(m ast.Node) bool {
 			switch v := m.(type) {
 			case *ast.CallExpr:
+				if localOnly {
+					return true
+				}
 				if tv, ok := info.Types[v.Fun]; !ok || !tv.IsType() {
 					if fid, isId := v.Fun.(*ast.Ident); !isId || (fid.Name != "len" && fid.Name != "cap") {
 						safe = false
